@@ -434,12 +434,17 @@ def check_model(log, initial=None):
             handle_path[ev['h']] = ev['p']
         if ev['k'] == 'write':
             ev = dict(ev, p=handle_path.get(ev['h'], ev['p']))
+        buffered = False
         if ev['k'] == 'replace':
             for h, p in list(handle_path.items()):
                 if p == ev['p']:
                     handle_path[h] = ev['dst']
+                    buffered = True       # a writer is still open on the moved file: the real file may
+                    #                       lag behind the model by what sits in its user-space buffer
+        if ev['k'] in ('close', 'finalise'):
+            handle_path.pop(ev['h'], None)
         _apply(fs, ev)
-        if ev['k'] in ('close', 'replace') and ev.get('snap') is not None:
+        if ev['k'] in ('close', 'replace') and ev.get('snap') is not None and not buffered:
             path = ev['dst'] if ev['k'] == 'replace' else ev['p']
             if fs.get(path) != ev['snap']:
                 raise FSModelError('replay model differs from the real file at log index %d (%s %s): '
